@@ -85,6 +85,21 @@ pub fn key_string(b: &[u8]) -> String {
     b.iter().map(|x| *x as char).collect()
 }
 
+/// Control characters (NUL included) and the replacement char escaped.
+pub fn printable(s: &str) -> String {
+    let mut out = String::with_capacity(s.len());
+    for c in s.chars() {
+        if c == '\n' || c == '\t' {
+            out.push(' ');
+        } else if c.is_control() || c == '\u{fffd}' {
+            out.push_str(&format!("\\x{:02x}", c as u32));
+        } else {
+            out.push(c);
+        }
+    }
+    out
+}
+
 /// A thread that feeds one FIFO input.
 pub struct Feeder {
     path: PathBuf,
@@ -662,7 +677,8 @@ fn cfg_str(c: &RunCfg) -> String {
 
 /// Run every (configuration, schedule) of a case and evaluate the oracles.
 pub fn run_case(case: &Case, dir: &Path) -> CaseRun {
-    let v = |o: &str, s: String| Some(Violation { oracle: o.to_string(), observed: s });
+    // (keys may hold NUL and other control bytes: never print them raw)
+    let v = |o: &str, s: String| Some(Violation { oracle: o.to_string(), observed: printable(&s) });
     let model: Vec<(Vec<u8>, u64)> = case.input.model().into_iter().collect();
     let mut invocations = Vec::new();
     let mut violation = None;
